@@ -136,4 +136,215 @@ theorem decodeF_no_input (lb : Cls) (e : Nat) (defer : Bool) (hlb : LazyOK lb) :
     · exact main
 end
 
+mutual
+/-- decoding invents no coders -/
+theorem codersFs_decodeFs (lb : Cls) (e : Nat) (defer : Bool) : ∀ (flag : Bool) (cur : Region)
+    (lbuf : Option Region) (p : List Nat) (w : WFields) (c : Coder),
+    c ∈ codersFs (decodeFs lb e defer flag cur lbuf p w) → c ∈ wcodersFs w
+  | _, _, _, _, .nil, c, h => by simp [decodeFs, codersFs] at h
+  | flag, cur, lbuf, p, .cons n f rest, c, h => by
+    simp only [decodeFs, codersFs, List.mem_append] at h
+    simp only [wcodersFs, List.mem_append]
+    rcases h with h | h
+    · exact Or.inl (codersF_decodeF lb e defer flag cur lbuf (n :: p) f c h)
+    · exact Or.inr (codersFs_decodeFs lb e defer flag cur lbuf p rest c h)
+theorem codersF_decodeF (lb : Cls) (e : Nat) (defer : Bool) : ∀ (flag : Bool) (cur : Region)
+    (lbuf : Option Region) (p : List Nat) (w : WField) (c : Coder),
+    c ∈ codersF (decodeF lb e defer flag cur lbuf p w) → c ∈ wcodersF w
+  | _, _, _, _, .leaf c' off len, c, h => by simpa [decodeF, codersF, wcodersF] using h
+  | flag, cur, lbuf, p, .list es, c, h => by
+    simp only [decodeF, codersF] at h
+    simp only [wcodersF]
+    exact codersFs_decodeFs lb e defer flag cur lbuf (0 :: p) es c h
+  | flag, cur, lbuf, p, .sub ml fl off len fs, c, h => by
+    simp only [decodeF] at h
+    simp only [wcodersF]
+    split at h
+    · simpa [codersF] using h
+    · split at h
+      · simp only [codersF] at h
+        exact codersFs_decodeFs lb e defer _ _ _ (1 :: p) fs c h
+      · simp only [codersF] at h
+        exact codersFs_decodeFs lb e defer _ _ _ (1 :: p) fs c h
+end
+
+/-! ### forcing lazy fields -/
+
+mutual
+theorem forceFs_no_input (lb : Cls) (e : Nat) (hlb : LazyOK lb) : ∀ (fs : Fields) (p : List Nat),
+    (∀ c ∈ codersFs fs, DecOK c) → (∀ m, (m, Region.input) ∉ refsFs fs) →
+    ∀ m, (m, Region.input) ∉ refsFs (forceFs lb e p fs)
+  | .nil, _, _, _, _ => by simp [forceFs, refsFs]
+  | .cons n f rest, p, hc, hin, m => by
+    simp only [forceFs, refsFs, List.mem_append, not_or]
+    exact ⟨forceF_no_input lb e hlb f (n :: p) (fun c h => hc c (by simp [codersFs, h]))
+             (fun m h => hin m (by simp [refsFs, h])) m,
+           forceFs_no_input lb e hlb rest p (fun c h => hc c (by simp [codersFs, h]))
+             (fun m h => hin m (by simp [refsFs, h])) m⟩
+theorem forceF_no_input (lb : Cls) (e : Nat) (hlb : LazyOK lb) : ∀ (f : Field) (p : List Nat),
+    (∀ c ∈ codersF f, DecOK c) → (∀ m, (m, Region.input) ∉ refsF f) →
+    ∀ m, (m, Region.input) ∉ refsF (forceF lb e p f)
+  | .leaf c r off len, _, _, hin, m => by simpa [forceF] using hin m
+  | .sub buf fs, p, hc, hin, m => by
+    simp only [forceF, refsF, List.mem_append, not_or]
+    refine ⟨fun h => hin m (by simp [refsF, h]), ?_⟩
+    exact forceFs_no_input lb e hlb fs (1 :: p) (fun c h => hc c (by simp [codersF, h]))
+      (fun m h => hin m (by simp [refsF, h])) m
+  | .list es, p, hc, hin, m => by
+    simp only [forceF, refsF]
+    exact forceFs_no_input lb e hlb es (0 :: p) (fun c h => hc c (by simp [codersF, h]))
+      (fun m h => hin m (by simp [refsF, h])) m
+  | .thunk buf off len ml w, p, hc, hin, m => by
+    simp only [forceF]
+    refine decodeF_no_input lb e false hlb (.sub ml false off len w) true buf none p
+      (fun c h => hc c (by simpa [codersF, wcodersF] using h)) (fun _ hb => hin false (by simp [refsF, hb]))
+      (fun b h => by cases h) m
+end
+
+mutual
+theorem decodeFs_noThunks (lb : Cls) (e : Nat) : ∀ (w : WFields) (flag : Bool) (cur : Region)
+    (lbuf : Option Region) (p : List Nat), noThunksFs (decodeFs lb e false flag cur lbuf p w) = true
+  | .nil, _, _, _, _ => by simp [decodeFs, noThunksFs]
+  | .cons n f rest, flag, cur, lbuf, p => by
+    simp only [decodeFs, noThunksFs, Bool.and_eq_true]
+    exact ⟨decodeF_noThunks lb e f flag cur lbuf (n :: p), decodeFs_noThunks lb e rest flag cur lbuf p⟩
+theorem decodeF_noThunks (lb : Cls) (e : Nat) : ∀ (w : WField) (flag : Bool) (cur : Region)
+    (lbuf : Option Region) (p : List Nat), noThunksF (decodeF lb e false flag cur lbuf p w) = true
+  | .leaf c off len, _, _, _, _ => by simp [decodeF, noThunksF]
+  | .list es, flag, cur, lbuf, p => by
+    simp only [decodeF, noThunksF]
+    exact decodeFs_noThunks lb e es flag cur lbuf (0 :: p)
+  | .sub ml fl off len fs, flag, cur, lbuf, p => by
+    simp only [decodeF, Bool.false_and]
+    split
+    · simp only [noThunksF]
+      exact decodeFs_noThunks lb e fs _ _ _ (1 :: p)
+    · simp only [noThunksF]
+      exact decodeFs_noThunks lb e fs _ _ _ (1 :: p)
+end
+
+mutual
+theorem forceFs_noThunks (lb : Cls) (e : Nat) : ∀ (fs : Fields) (p : List Nat),
+    noThunksFs (forceFs lb e p fs) = true
+  | .nil, _ => by simp [forceFs, noThunksFs]
+  | .cons n f rest, p => by
+    simp only [forceFs, noThunksFs, Bool.and_eq_true]
+    exact ⟨forceF_noThunks lb e f (n :: p), forceFs_noThunks lb e rest p⟩
+theorem forceF_noThunks (lb : Cls) (e : Nat) : ∀ (f : Field) (p : List Nat),
+    noThunksF (forceF lb e p f) = true
+  | .leaf c r off len, _ => by simp [forceF, noThunksF]
+  | .sub buf fs, p => by simp only [forceF, noThunksF]; exact forceFs_noThunks lb e fs (1 :: p)
+  | .list es, p => by simp only [forceF, noThunksF]; exact forceFs_noThunks lb e es (0 :: p)
+  | .thunk buf off len ml w, p => by
+    simp only [forceF]
+    exact decodeF_noThunks lb e (.sub ml false off len w) true buf none p
+end
+
+/-! ### merge -/
+
+theorem refs_get : ∀ (fs : Fields) (k : Nat) (f : Field) (x : Bool × Region),
+    fs.get? k = some f → x ∈ refsF f → x ∈ refsFs fs
+  | .nil, _, _, _, h, _ => by simp [Fields.get?] at h
+  | .cons n g rest, k, f, x, h, hx => by
+    simp only [Fields.get?] at h
+    split at h
+    · cases h; simp [refsFs, hx]
+    · simp [refsFs, refs_get rest k f x h hx]
+
+theorem refs_set : ∀ (fs : Fields) (k : Nat) (v : Field) (x : Bool × Region),
+    x ∈ refsFs (fs.set k v) → x ∈ refsFs fs ∨ x ∈ refsF v
+  | .nil, k, v, x, h => by simpa [Fields.set, refsFs] using h
+  | .cons n g rest, k, v, x, h => by
+    simp only [Fields.set] at h
+    split at h
+    · simp only [refsFs, List.mem_append] at h ⊢
+      rcases h with h | h
+      · exact Or.inr h
+      · exact Or.inl (Or.inr h)
+    · simp only [refsFs, List.mem_append] at h ⊢
+      rcases h with h | h
+      · exact Or.inl (Or.inl h)
+      · rcases refs_set rest k v x h with h | h
+        · exact Or.inl (Or.inr h)
+        · exact Or.inr h
+
+theorem refs_append : ∀ (a b : Fields), refsFs (a.append b) = refsFs a ++ refsFs b
+  | .nil, b => by simp [Fields.append, refsFs]
+  | .cons n f rest, b => by simp [Fields.append, refsFs, refs_append rest b]
+
+theorem mplace_cases {c : Coder} (h : MrgOK c) (r : Region) (e : Nat) (p : List Nat) (off : Nat) :
+    (mplace c.mrg r (.fresh e p) off).1 = .fresh e p ∨
+    (isMutable c = false ∧ (mplace c.mrg r (.fresh e p) off).1 = r) := by
+  rcases h with h | ⟨hk, h⟩
+  · left; simp [mplace, h]
+  · right; simp [mplace, h, isMutable, hk]
+
+mutual
+/-- what a merged message references: what the destination referenced, allocations of this merge,
+or read-only references of the source -/
+theorem mergeFs_refs (e : Nat) : ∀ (src : Fields) (p : List Nat) (dst : Fields) (x : Bool × Region),
+    noThunksFs src = true → (∀ c ∈ codersFs src, MrgOK c) → x ∈ refsFs (mergeFs e p dst src) →
+    x ∈ refsFs dst ∨ (∃ q, x.2 = .fresh e q) ∨ (x.1 = false ∧ x ∈ refsFs src)
+  | .nil, _, _, _, _, _, h => by simpa [mergeFs] using Or.inl h
+  | .cons n sf rest, p, dst, x, hnt, hc, h => by
+    simp only [noThunksFs, Bool.and_eq_true] at hnt
+    simp only [mergeFs] at h
+    rcases mergeFs_refs e rest p _ x hnt.2 (fun c hm => hc c (by simp [codersFs, hm])) h with h1 | h2 | h3
+    · rcases refs_set _ _ _ _ h1 with h1 | h1
+      · exact Or.inl h1
+      · rcases mergeF_refs e sf (n :: p) (dst.get? n) x hnt.1 (fun c hm => hc c (by simp [codersFs, hm])) h1 with
+          ⟨df, hd, hx⟩ | h2 | h3
+        · exact Or.inl (refs_get dst n df x hd hx)
+        · exact Or.inr (Or.inl h2)
+        · exact Or.inr (Or.inr ⟨h3.1, by simp [refsFs, h3.2]⟩)
+    · exact Or.inr (Or.inl h2)
+    · exact Or.inr (Or.inr ⟨h3.1, by simp [refsFs, h3.2]⟩)
+theorem mergeF_refs (e : Nat) : ∀ (sf : Field) (p : List Nat) (d : Option Field) (x : Bool × Region),
+    noThunksF sf = true → (∀ c ∈ codersF sf, MrgOK c) → x ∈ refsF (mergeF e p d sf) →
+    (∃ df, d = some df ∧ x ∈ refsF df) ∨ (∃ q, x.2 = .fresh e q) ∨ (x.1 = false ∧ x ∈ refsF sf)
+  | .leaf c r off len, p, d, x, _, hc, h => by
+    simp only [mergeF, refsF, List.mem_singleton] at h
+    rcases mplace_cases (hc c (by simp [codersF])) r e p off with hm | ⟨hi, hm⟩
+    · exact Or.inr (Or.inl ⟨p, by rw [h]; exact hm⟩)
+    · refine Or.inr (Or.inr ⟨by rw [h]; exact hi, ?_⟩)
+      rw [h, hm, hi]; simp [refsF, hi]
+  | .sub buf sfs, p, d, x, hnt, hc, h => by
+    simp only [noThunksF] at hnt
+    have hc' : ∀ c ∈ codersFs sfs, MrgOK c := fun c hm => hc c (by simpa [codersF] using hm)
+    simp only [mergeF] at h
+    split at h
+    · rename_i dbuf dfs
+      simp only [refsF, List.mem_append] at h
+      rcases h with h | h
+      · exact Or.inl ⟨_, rfl, by simp [refsF, h]⟩
+      · rcases mergeFs_refs e sfs (1 :: p) dfs x hnt hc' h with h1 | h2 | h3
+        · exact Or.inl ⟨_, rfl, by simp [refsF, h1]⟩
+        · exact Or.inr (Or.inl h2)
+        · exact Or.inr (Or.inr ⟨h3.1, by simp [refsF, h3.2]⟩)
+    · simp only [refsF, Option.toList, List.map_nil, List.nil_append] at h
+      rcases mergeFs_refs e sfs (1 :: p) .nil x hnt hc' h with h1 | h2 | h3
+      · simp [refsFs] at h1
+      · exact Or.inr (Or.inl h2)
+      · exact Or.inr (Or.inr ⟨h3.1, by simp [refsF, h3.2]⟩)
+  | .list ses, p, d, x, hnt, hc, h => by
+    simp only [noThunksF] at hnt
+    have hc' : ∀ c ∈ codersFs ses, MrgOK c := fun c hm => hc c (by simpa [codersF] using hm)
+    simp only [mergeF] at h
+    split at h
+    · rename_i des
+      simp only [refsF, refs_append, List.mem_append] at h
+      rcases h with h | h
+      · exact Or.inl ⟨_, rfl, by simp [refsF, h]⟩
+      · rcases mergeFs_refs e ses (0 :: p) .nil x hnt hc' h with h1 | h2 | h3
+        · simp [refsFs] at h1
+        · exact Or.inr (Or.inl h2)
+        · exact Or.inr (Or.inr ⟨h3.1, by simp [refsF, h3.2]⟩)
+    · simp only [refsF] at h
+      rcases mergeFs_refs e ses (0 :: p) .nil x hnt hc' h with h1 | h2 | h3
+      · simp [refsFs] at h1
+      · exact Or.inr (Or.inl h2)
+      · exact Or.inr (Or.inr ⟨h3.1, by simp [refsF, h3.2]⟩)
+  | .thunk buf off len ml w, _, _, _, hnt, _, _ => by simp [noThunksF] at hnt
+end
+
 end Heap
